@@ -33,6 +33,23 @@ Proof.
     intros ws H. inversion H. auto.
 Qed.
 
+Lemma rf_reorg_sync : forall W d m h ws m', 0 < W -> d_height d = Some h ->
+  mem_sync W d m = true -> (h + 1) mod W = 0 -> rf_reorg W d m = (Some ws, m') ->
+  ws = [WWindow (align W h) None].
+Proof.
+  intros W d m h ws m' HW Hh Hs Hb Hr. unfold mem_sync in Hs. rewrite Hh in Hs.
+  apply andb_true_iff in Hs as [He Hs]. apply andb_true_iff in Hs as [Hn Hf].
+  apply N.eqb_eq in Hn. apply N.eqb_eq in Hf.
+  assert (Hf' : rf_from m = h + 1). { rewrite Hf. unfold align. rewrite Hb. lia. }
+  unfold rf_reorg in Hr. destruct (rf_err m); [discriminate|].
+  rewrite Hn, Hf' in Hr.
+  replace (h + 1 =? 0) with false in Hr by (symmetry; apply N.eqb_neq; lia).
+  replace (h + 1 - 1) with h in Hr by lia.
+  replace (0 <? h + 1) with true in Hr by (symmetry; apply N.ltb_lt; lia).
+  rewrite N.eqb_refl in Hr. simpl in Hr.
+  destruct (get_window d (align W h)); inversion Hr. reflexivity.
+Qed.
+
 Lemma rf_fill_aligned : forall W d cnt rf from, 0 < W -> rf_aligned W rf = true ->
   rf_aligned W (rf_fill W d rf from cnt) = true.
 Proof.
@@ -89,7 +106,7 @@ Proof.
 Qed.
 
 (* every batch prefix of every operation keeps the disk consistent, and the memory stays aligned *)
-Lemma op_batches_good : forall W st o j, 0 < W -> Good W st -> op_ok W (fst st) o = true ->
+Lemma op_batches_good : forall W st o j, 0 < W -> Good W st -> op_ok W (fst st) (snd st) o = true ->
   consistent W (apply_batches (fst st) (firstn j (fst (plan W o (fst st) (snd st))))) = true
   /\ rf_aligned W (snd (plan W o (fst st) (snd st))) = true.
 Proof.
@@ -110,7 +127,11 @@ Proof.
     destruct (header d h) as [hb|] eqn:Hd; [|cbn [fst snd]; auto].
     destruct (rf_reorg_shape W d m HW Ha) as [A1 A2].
     destruct (rf_reorg W d m) as [[ws|] m'] eqn:Hr; cbn [fst snd] in *; [|auto].
-    split; auto. apply Hone. eapply revert_consistent; eauto.
+    split; auto. apply Hone. unfold op_ok in Hok. rewrite Hh in Hok.
+    apply andb_true_iff in Hok as [Hb Hp].
+    eapply revert_consistent; eauto.
+    intros Hz. eapply rf_reorg_sync; eauto.
+    apply N.eqb_eq in Hz. rewrite Hz in Hb. simpl in Hb. exact Hb.
   - (* Prune *)
     cbn [fst snd]. split; auto. unfold op_ok in Hok. destruct (d_height d) as [h|] eqn:Hh.
     + apply N.leb_le in Hok.
@@ -135,7 +156,7 @@ Qed.
 Lemma firstn_all' : forall {A} (l : list A), firstn (length l) l = l.
 Proof. intros. apply firstn_all. Qed.
 
-Lemma step_good : forall W st o, 0 < W -> Good W st -> op_ok W (fst st) o = true -> Good W (step W st o).
+Lemma step_good : forall W st o, 0 < W -> Good W st -> op_ok W (fst st) (snd st) o = true -> Good W (step W st o).
 Proof.
   intros W st o HW HG Hok.
   destruct (op_batches_good W st o (length (fst (plan W o (fst st) (snd st)))) HW HG Hok) as [C A].
